@@ -82,7 +82,7 @@ def canon(exec_lines):
     return '\n'.join(out)
 
 
-def run_net(prop, tier, seed, profiles, rule, assumptions, models=(), level='model_checking'):
+def run_net(prop, tier, seed, profiles, rule, assumptions, models=(), level='model_checking', dlimpl=()):
     """profiles: list of (profile, executions_quick, executions_thorough, max_ops)"""
     ev = Evidence(prop, tier, seed, level)
     ev.cov['rule'] = rule
@@ -108,11 +108,14 @@ def run_net(prop, tier, seed, profiles, rule, assumptions, models=(), level='mod
             nexec = nq if tier == 'quick' else nt
             path = os.path.join(rd, '%s.ndjson' % profile)
             rc, out = vlib.run([drv, 'gen', profile, str(seed * 1000 + i), str(nexec), path, str(max_ops)], timeout=900, check=False)
-            if rc not in (0, 3):
+            if rc not in (0, 3) and not (rc < 0 or rc >= 128):
                 raise vlib.CheckError('net_driver failed rc=%d: %s' % (rc, out[-2000:]))
+            crashed = rc < 0 or rc >= 128   # the library crashed under the driver: the trace ends with an abort event
             m = __import__('re').search(r'wide_dropped=(\d+)', out)
             dropped += int(m.group(1)) if m else 0
             lines = vlib.read_lines(path)
+            if crashed and not (lines and '"e":"abort"' in lines[-1]):
+                lines.append(json.dumps({'e': 'abort', 'what': 'driver killed, rc=%d' % rc}, separators=(',', ':')))
             for e in vlib.split_executions(lines):
                 if interesting(prop, e):
                     distinct.add(hash(canon(e)))
@@ -129,6 +132,12 @@ def run_net(prop, tier, seed, profiles, rule, assumptions, models=(), level='mod
             vlib.run([drv, 'replay', f, outp], timeout=300, check=False)
             vlib.validate_batch(ev, prop, 'NetworkTrace', vlib.read_lines(outp), signature, 'corpus-' + os.path.basename(f)[4:-7],
                                 timeout=600, env={'VPROP': prop}, describe_fn=describe)
+        # every transition of the implementation-shaped difference-logic model, replayed on the library
+        for real in dlimpl:
+            if ev.violations:
+                break
+            import dlreplay
+            dlreplay.run(ev, prop, tier, real)
         ev.cov['distinct_nontrivial'] = len(distinct)
         ev.cov['executions_dropped_wide_numbers'] = dropped
     finally:
